@@ -185,6 +185,7 @@ fn ascii_str6(buf: &[u8; 6]) -> &str {
 /// hex digits (a sign is not a digit) and no dangling separator behind; the bytes
 /// are exactly the two values; exactly the 5 characters are consumed.
 #[kani::proof]
+#[kani::stub(std::mem::drop, crate::lex::verif_kani::common::mem_drop__leak)]
 #[kani::unwind(4)]
 #[kani::stub(crate::rhs_types::bytes::hex_byte, hex_byte__contract)]
 #[kani::stub(<crate::rhs_types::bytes::ByteSeparator as crate::lex::Lex>::lex, byte_separator_lex__contract)]
@@ -224,6 +225,7 @@ fn lex_byte_string__two_pairs() {
 
 /// Three pairs, concrete (regression obligation): mixed separators, exact bytes.
 #[kani::proof]
+#[kani::stub(std::mem::drop, crate::lex::verif_kani::common::mem_drop__leak)]
 #[kani::unwind(5)]
 #[kani::stub(crate::rhs_types::bytes::hex_byte, hex_byte__contract)]
 #[kani::stub(<crate::rhs_types::bytes::ByteSeparator as crate::lex::Lex>::lex, byte_separator_lex__contract)]
@@ -315,6 +317,7 @@ fn quoted_items<const K1: u8, const K2: u8, const K3: u8, const LEN: usize>() {
 }
 
 #[kani::proof]
+#[kani::stub(std::mem::drop, crate::lex::verif_kani::common::mem_drop__leak)]
 #[kani::unwind(7)]
 #[kani::stub(crate::rhs_types::bytes::hex_byte, hex_byte__contract)]
 #[kani::stub(crate::rhs_types::bytes::oct_byte, oct_byte__contract)]
@@ -323,6 +326,7 @@ fn lex_quoted_string__hex_plain_oct() {
 }
 
 #[kani::proof]
+#[kani::stub(std::mem::drop, crate::lex::verif_kani::common::mem_drop__leak)]
 #[kani::unwind(7)]
 #[kani::stub(crate::rhs_types::bytes::hex_byte, hex_byte__contract)]
 #[kani::stub(crate::rhs_types::bytes::oct_byte, oct_byte__contract)]
@@ -331,6 +335,7 @@ fn lex_quoted_string__oct_quote_escape_hex() {
 }
 
 #[kani::proof]
+#[kani::stub(std::mem::drop, crate::lex::verif_kani::common::mem_drop__leak)]
 #[kani::unwind(7)]
 #[kani::stub(crate::rhs_types::bytes::hex_byte, hex_byte__contract)]
 #[kani::stub(crate::rhs_types::bytes::oct_byte, oct_byte__contract)]
@@ -440,6 +445,7 @@ macro_rules! quoted_rejected {
     ($name:ident, $unwind:literal, $s:literal, $msg:literal) => {
         #[kani::proof]
         #[kani::unwind($unwind)]
+        #[kani::stub(std::mem::drop, crate::lex::verif_kani::common::mem_drop__leak)]
         fn $name() {
             let r = lex_quoted_string_as_vec($s);
             // (the property promises an error, not a particular error kind)
@@ -538,30 +544,35 @@ fn raw_string<const H: usize, const L: usize>() {
 }
 
 #[kani::proof]
+#[kani::stub(std::mem::drop, crate::lex::verif_kani::common::mem_drop__leak)]
 #[kani::unwind(10)]
 fn lex_raw_string__h0_l2() {
     raw_string::<0, 2>()
 }
 
 #[kani::proof]
+#[kani::stub(std::mem::drop, crate::lex::verif_kani::common::mem_drop__leak)]
 #[kani::unwind(10)]
 fn lex_raw_string__h1_l2() {
     raw_string::<1, 2>()
 }
 
 #[kani::proof]
+#[kani::stub(std::mem::drop, crate::lex::verif_kani::common::mem_drop__leak)]
 #[kani::unwind(12)]
 fn lex_raw_string__h1_l3() {
     raw_string::<1, 3>()
 }
 
 #[kani::proof]
+#[kani::stub(std::mem::drop, crate::lex::verif_kani::common::mem_drop__leak)]
 #[kani::unwind(12)]
 fn lex_raw_string__h2_l2() {
     raw_string::<2, 2>()
 }
 
 #[kani::proof]
+#[kani::stub(std::mem::drop, crate::lex::verif_kani::common::mem_drop__leak)]
 #[kani::unwind(14)]
 fn lex_raw_string__h2_l3() {
     raw_string::<2, 3>()
